@@ -18,6 +18,8 @@ BUILT={
  "C12":("Model::to_string and LinearModel::to_string fed back through type check, transform and linearizer; row-multiset comparison after harmless normalisations, semantic comparison with the certified aux MILP, text fixed-point test","4/C12"),
  "C13":("exact point mapping both ways between model and standard form (vertices and rays under random objectives) + certified optimum/status equality, via guarded accessors","4/C13"),
  "C14":("invariant checker over the recorded pivot history of the real pivot loop (hook H3), every prefix; terminal event vs certified exact oracle","4/C14"),
+ "C18":("totality monitor: every public stage and every error rendering under catch_unwind with a recording panic hook, inside sacrificial workers with CPU-time and address-space budgets (crash kind classified from the exit status); valid, mutated, noisy and deeply nested inputs","4/C18"),
+ "C19":("mis-typed twins of valid programs: the type checker and the transformer must both reject, with the same error class at the injected span; data-independent errors may not wait for the transformer; well-typed programs must not be rejected by either","4/C19"),
  "C17":("independent CPLEX-LP reader applied to every exported text, exact comparison with the model","4/C17"),
 }
 man={
